@@ -30,6 +30,11 @@ LOW_NT_OK = False
 GC_EVERY = 10
 
 
+# thorough tier: coverage-guided campaigns on top of the random ones
+ATHERIS = [{'impl': 'py', 'n': 20000, 'name': 'py-atheris'},
+           {'impl': 'c', 'n': 20000, 'name': 'c-atheris'}]
+
+
 def configs(tier, seed):
     n = 1500 if tier == 'quick' else 20000
     return [{'name': impl + '-pickle', 'impl': impl, 'mode': 'hyp', 'n': n}
